@@ -57,30 +57,40 @@ pub struct Failure {
     pub replay: Value,
 }
 
-pub fn hx_failure(v: &Violation, labels: &[u8], track_returned: bool, probes: &crate::hx::Probes) -> Failure {
+/// The replay object of an HX case.
+pub fn hx_case_json(cfg: &crate::hx::HxCfg, history: &[Op], at: &str, kind: &str, detail: &str, aux: Option<&Vec<Op>>) -> Value {
+    let probes = &cfg.probes;
+    json!({
+        "engine": "hx",
+        "property": cfg.prop,
+        "n": cfg.n,
+        "cap": cfg.cap,
+        "ids": cfg.ids,
+        "labels": cfg.labels,
+        "data": cfg.data,
+        "track_returned": cfg.track_returned,
+        "history": history,
+        "history_text": hist_text(history),
+        "aux_history": aux,
+        "at": at,
+        "kind": kind,
+        "detail": detail,
+        "config": cfg.describe(),
+        "ops": {"next_id": cfg.next_id, "add_next": cfg.add_next, "clone_swap": cfg.clone_swap, "reload_swap": cfg.reload_swap, "merges": cfg.merges},
+        "probes": {
+            "drain": probes.drain, "clone": probes.clone, "reload": probes.reload, "cuts": probes.cuts,
+            "slice": probes.slice, "exports": probes.exports, "texts": probes.texts,
+            "lockstep": probes.lockstep, "rerun": probes.rerun,
+        },
+    })
+}
+
+pub fn hx_failure(cfg: &crate::hx::HxCfg, v: &Violation) -> Failure {
     Failure {
         prop: v.prop.clone(),
         signature: format!("hx:{}", v.kind),
         summary: format!("[{}] after `{}`: {}", v.kind, hist_text(&v.history), v.detail),
-        replay: json!({
-            "engine": "hx",
-            "property": v.prop,
-            "n": v.n,
-            "cap": v.cap,
-            "labels": labels,
-            "track_returned": track_returned,
-            "history": v.history,
-            "history_text": hist_text(&v.history),
-            "at": v.at,
-            "kind": v.kind,
-            "detail": v.detail,
-            "config": v.cfg,
-            "probes": {
-                "drain": probes.drain, "clone": probes.clone, "reload": probes.reload, "cuts": probes.cuts,
-                "slice": probes.slice, "exports": probes.exports, "texts": probes.texts,
-                "lockstep": probes.lockstep, "rerun": probes.rerun,
-            },
-        }),
+        replay: hx_case_json(cfg, &v.history, &v.at, &v.kind, &v.detail, v.aux.as_ref()),
     }
 }
 
